@@ -174,6 +174,12 @@ def judge_decompose(markup):
         return False, detail | {"why": f"raised {type(e).__name__}: {e}"}
     detail |= {"text": repr(text), "attrs": repr(al)}
     want_text = (b"" if flat and isinstance(flat[0][0], bytes) else "").join(u for u, _ in flat)
+    # oracle correction (triage): a markup whose parts are all empty has no unit in `flat`, so the reference
+    # cannot know whether the parts were str or bytes and demanded '' where urwid returns b'' for
+    # ('x', b'').  The statement speaks of characters and their attributes; an empty text of either type
+    # has none, so it is accepted (the attribute runs are still judged below: none may exceed the text).
+    if not flat and isinstance(text, (str, bytes)) and len(text) == 0:
+        want_text = text
     if text != want_text:
         return False, detail | {"why": f"text should be {want_text!r}"}
     got = []
@@ -558,6 +564,7 @@ def text_scope(tier, r):
 
 
 SIZES = (1, 2, 3, 4, 5, 6, 0)  # 0 = fixed sizing, render(())
+FAIL_CAP = 20  # failures kept per text check (the Check collector's own cap); raised only by triage scripts
 
 
 def _text_task(args):
@@ -594,7 +601,7 @@ def _text_task(args):
                             t["n"] += 1
                             if len(t["samples"]) < 3:
                                 t["samples"].append({"classes": classes, "enc": enc, "bytes": as_bytes, "family": fam, "size": width, "wrap": wrap, "align": align})
-                            if not ok and len(t["failures"]) < 20:
+                            if not ok and len(t["failures"]) < FAIL_CAP:
                                 t["failures"].append(detail | {"classes": classes, "family": fam})
     finally:
         set_encoding(old)
@@ -643,7 +650,7 @@ def run_text_checks(tier, r):
         for tallies, _sk in parts:  # deterministic task order
             t = tallies[idx]
             chk.evaluations += t["n"]
-            chk.failures += t["failures"][: 20 - len(chk.failures)]
+            chk.failures += t["failures"][: FAIL_CAP - len(chk.failures)]
             chk.samples += t["samples"][: 3 - len(chk.samples)]
         chk.nontrivial = range(chk.evaluations)  # every case key (text, family, size, wrap, align) is distinct by construction
         out.append(chk.result())
